@@ -80,7 +80,7 @@ def explore(R, key, mk_args, cons, B, cap):
 
 def check_message(R, corpus, view, cont, path, fns, kind, tier, sd):
     r = {'path': path, 'findings': [], 'inc': [], 'queries': 0, 'paths': 0, 'truncated': 0, 'file': cont['file']}
-    cap = 16 if tier == 'quick' else 400
+    cap = 16 if tier == 'quick' else 48
     key = fns['read']['key']
     lens = []
     if kind == 'world':
@@ -111,13 +111,13 @@ def check_message(R, corpus, view, cont, path, fns, kind, tier, sd):
     # (ii) canonical prefix + symbolic suffix at every field boundary of the baseline shape
     try:
         bounds = encode.Bounds('quick')
-        bounds.max_shapes = 1 if tier == 'quick' else 3
+        bounds.max_shapes = 1 if tier == 'quick' else 2
         for enc, ch in encode.shapes(corpus, view, cont, bounds, sd):
             if R.sat(enc.cons) is None:
                 continue
             n = len(enc.bytes)
             cuts = sorted(set(a for (_, _, a, b, _) in enc.fields if 0 < a < n))
-            maxcuts = 3 if tier == 'quick' else 8
+            maxcuts = 3 if tier == 'quick' else 6
             if len(cuts) > maxcuts:
                 step = max(1, len(cuts) // maxcuts)
                 cuts = cuts[::step][:maxcuts]
@@ -257,7 +257,7 @@ def run(tier, only=None):
         ck.violation(key, 'decoder can abort: %s (%s) - reached in %d message(s), e.g. %s with %s; native=%r' % (site, f['detail'][:120], len(msgs), path, f['input'], natives[:2]),
                      {'site': site, 'messages': msgs[:50], 'example': dict(f, message=path, kind_of_message=kind), 'natives': natives}, confirmed=confirmed)
     ck.assume('monitors: reachable Assert failure (dev-profile overflow checks), core::panicking::*, unwrap/expect on None/Err, unreachable, allocation request whose byte size can exceed 16 MiB under the path condition')
-    ck.assume('inputs: fully symbolic bodies of min and min+9 bytes (quick; thorough adds min+1, min+40) accepted by the guard; canonical prefix + symbolic suffix at 3 (quick) / up to 8 (thorough) field boundaries of the first 1 / 3 shapes; concolic path cap per query 16 (quick) / 400 (thorough): beyond the cap paths are not explored (bounded exploration, stated)')
+    ck.assume('inputs: fully symbolic bodies of min and min+9 bytes (quick; thorough adds min+1, min+40) accepted by the guard; canonical prefix + symbolic suffix at 3 (quick) / up to 6 (thorough) field boundaries of the first 1 / 2 shapes; concolic path cap per query 16 (quick) / 48 (thorough): beyond the cap paths are not explored (bounded exploration, stated)')
     ck.assume('header-level parsing (vec![0; size] bounded by the size field) is covered by C02-C; zlib payloads (flate2) are outside the encoding')
     return ck.finish({'states': max(tot['paths'], 1), 'transitions': max(tot['queries'], 1), 'traces_validated_against_impl': sum(len(c) for c in cases.values()),
                       'messages': tot['messages'], 'symbolic_input_queries': tot['queries'], 'mir_paths': tot['paths'], 'path_capped_queries': tot['truncated'], 'solver_s': round(tot['solver_s'], 1),
